@@ -308,6 +308,9 @@ func planC08(tier string, seed uint64) *Plan {
 	racingGroups := randomPlan("ui_race", seed, uiCfgs(seed, n, nil), jobs, count, "stub")
 	// the same under servitor's real main(): its keyboard loop, poller and subcommand goroutine
 	racingGroups = append(racingGroups, randomPlan("ui_main_race", seed+13, uiCfgs(seed+13, n/2, nil), jobs, count/2, "stub")...)
+	// sessions driven by the keymap model in which keys compete with loads and with the end of the
+	// media hook: the outcome must be explained by some order of the competing steps
+	racingGroups = append(racingGroups, randomPlan("ui_keymap", seed+23, uiCfgs(seed+23, n/2, nil), jobs, count/2, "stub")...)
 	p.Phases = []Phase{{Name: "racing-sessions", Groups: racingGroups}}
 	{
 		rc, rj, rn := 16, 2, 60
